@@ -71,6 +71,14 @@ CLAIMED.update({
             E1T + "; MIR-level arm check for the conversions with native replay"),
     "C13": ("E1 kani-cbmc", "9.3 C13", "decode_borrowed vs decode on the reference encodings of the C01 shapes and on every proper prefix (symbolic cut): acceptance "
             "agrees, to_owned() has the same variant and denotes the same value, error offsets lie within the input.", E1T),
+    "C14": ("E2 mir-smt (stateful)", "9.3 C14", "Writer clause only: the MIR of encode_with_dist_header_multi, collect_atoms, encode_term_with_cache / encode_term_impl (Atom arm) "
+            "and encode_atom_impl runs in the stateful MIR interpreter on 1..3 atom terms whose identities and byte lengths (0..131071) are symbolic "
+            "(terms may coincide); the produced buffer (8-bit expressions + opaque atom-text chunks) is read by a reference reader of the documented "
+            "DIST_HEADER layout and z3 decides on every path that flag nibbles, the LongAtoms bit, 1-/2-byte lengths and indices are where the "
+            "protocol puts them and that every ATOM_CACHE_REF resolves to the atom encoded; an error only for atoms over 65535 bytes. The header "
+            "reader (nom), the library round trip, the atom cache across messages and non-atom terms are outside.",
+            "MIR->SMT symbolic execution (stateful interpreter, std containers and byte buffers modelled) + z3 per path; counterexamples replayed by "
+            "an independent native reader of the real encoder's bytes"),
     "C15": ("E1 kani-cbmc", "9.3 C15", "from_term(to_term(v)) == v for all values of i8..i64, u8..u64, f32, f64, bool, char, (), Option<i64>, (i64,u8); wire trip: "
             "reference bytes of the value's width class -> real decoder -> real deserializer must give the value back.", E1T),
 })
@@ -83,8 +91,6 @@ NA = {
            "(assembler) and C01/C03 (terms), but exactly-once/in-order delivery across calls is not decidable with this technique here",
     "C13": "decode_borrowed (parse_*_borrowed with the ParsingContext path bookkeeping) exhausts memory under CBMC even alone on a 3-byte input "
            "(all 40 harnesses killed at >6 GB), so neither the two-decoder comparison nor the chain through the reference finishes",
-    "C14": "the distribution-header writer keys HashSet<&Atom>/HashMap<&Atom,u8> by atoms (SipHash over symbolic strings, iteration order) and the "
-           "reader mutates a 256-slot HashMap cache across messages; harnesses over these did not finish under CBMC within the budget of this round",
     "C07": "frame assembly is inline in async fns writing to a concrete tokio OwnedWriteHalf; no seam a symbolic executor can observe; "
            "atomicity under concurrent senders is tokio-Mutex scheduling (Kani has no concurrency, no sockets)",
     "C17": "RPC correlation lives in async fns over DashMap/oneshot/timeout and a spawned receiver task on TCP; quantifies over task "
@@ -104,7 +110,7 @@ def main():
     claimed = dict(CLAIMED)
     claimed.update({k: tuple(v) for k, v in extra.get("claimed", {}).items()})
     # only properties whose timings are calibrated (i.e. whose check has been run to completion here) are registered
-    claimed = {k: v for k, v in claimed.items() if k in ("C16", "C09") or os.path.exists(os.path.join(V, "driver", "timings", k + ".json"))}
+    claimed = {k: v for k, v in claimed.items() if k in ("C16", "C09", "C14") or os.path.exists(os.path.join(V, "driver", "timings", k + ".json"))}
     na = dict(NA)
     na.update(extra.get("not_applicable", {}))
     checks = []
